@@ -94,9 +94,21 @@ func validateBasicSyntax(exprStr string) error {
 		return fmt.Errorf("empty expression")
 	}
 
-	// Check for mismatched parentheses
+	// Check for mismatched parentheses (parentheses inside string literals,
+	// e.g. s LIKE '%)', are text and do not count)
 	parenthesesCount := 0
+	var literalQuote rune
 	for _, ch := range trimmed {
+		if literalQuote != 0 {
+			if ch == literalQuote {
+				literalQuote = 0
+			}
+			continue
+		}
+		if ch == '\'' || ch == '"' {
+			literalQuote = ch
+			continue
+		}
 		if ch == '(' {
 			parenthesesCount++
 		} else if ch == ')' {
